@@ -44,7 +44,7 @@ class InvProp(Prop):
 class C01(InvProp):
     id = 'C01'
     rule = ('one case = one generated world (3-14 nodes; loops, parallel links, second source, links declared into and out of tanks, '
-            'pumps/valves, 1-3 demand entries per junction with patterns/categories, pattern_start, multiplier, DD/PDD, report grid or ALL) '
+            'pumps/valves, 1-3 demand entries per junction with patterns/categories, negative (injection) entries, pattern_start, multiplier, DD/PDD, report grid or ALL) '
             'with seeded faults (pause+persist+restart, rescued solver fault, evaluator-order perturbation), leaks and closing links; every '
             'reported row is checked: junction balance, tank/reservoir demand = net inflow, DD demand = base*pattern*multiplier. '
             'non-trivial = the run has >= 3 reported rows and (a loop or parallel link or tank or leak or status change); '
@@ -58,6 +58,16 @@ class C01(InvProp):
         scn['run']['solver_options'] = {'MAXITER': 500}
         if scn['patterns'] and rng.chance(0.15):
             scn['options']['default_pattern'] = rng.pick(sorted(scn['patterns']))
+        if rng.chance(0.2):
+            # an injection: a demand entry with a negative base value (a well or an inflow from a neighbouring system), alone at the
+            # junction or next to ordinary demand categories, with or without a pattern
+            j = rng.pick([n for n in scn['nodes'] if n['type'] == 'J'])
+            pat = rng.pick(sorted(scn['patterns'])) if (scn['patterns'] and rng.chance(0.5)) else None
+            entry = [-rng.uni(0.0003, 0.004, nd=6), pat, rng.pick([None, 'inflow'])]
+            if rng.chance(0.5):
+                j['demands'] = [entry]
+            else:
+                j['demands'].append(entry)
         if rng.chance(0.4):
             gen.add_leaks(rng, scn, rng.irange(1, 2), tanks=True)
         if rng.chance(0.4):
